@@ -12,6 +12,7 @@
   satisfying the decidable guard that excludes exactly those classes.
 -/
 import MitmVerif.Lemmas.C41
+import MitmVerif.Model.C41_Lib
 namespace MitmVerif.Props.C41
 open MitmVerif MitmVerif.C41
 
@@ -356,5 +357,157 @@ theorem import_export_preserves_counterexample : ¬ ImportExportPreserves :=
 theorem import_export_preserves_counterexample_coding : refutes ceFlow = true ∧ gNoCE ceFlow = false := by decide +kernel
 theorem import_export_preserves_counterexample_length : refutes clFlow = true ∧ gRespCL clFlow = false := by decide +kernel
 theorem import_export_preserves_counterexample_host : refutes hostFlow = true ∧ gHost toyLib hostFlow = false := by decide +kernel
+
+/-! ### round 3: the mitmproxy-side helpers are transcribed (`Model/C41_Lib.lean`), only CPython primitives remain parameters -/
+
+/-- the laws, stated on the primitives -/
+structure PrimLaws (p : Prim) : Prop where
+  senc_sdec : ∀ b, p.senc (p.sdec b) = some b
+  sdec_ascii : ∀ b : Bytes, (∀ x ∈ b, x.toNat < 128) → p.sdec b = b
+  method_rt : ∀ m, ∃ m', p.senc (p.upper (p.sdec m)) = some m' ∧ p.upper (p.sdec m') = p.upper (p.sdec m)
+  b64 : ∀ b, p.b64dec (p.b64enc b) = some b
+
+theorem laws_of_prim {p : Prim} (h : PrimLaws p) : Laws (mkLib p) :=
+  ⟨h.senc_sdec, h.sdec_ascii, h.method_rt, h.b64⟩
+
+/-- **the round trip with `is_mostly_bin`, `infer_content_encoding`, `parse_content_type`/`assemble_content_type`
+and set_text's Content-Type rewrite inside the model**: only the text codecs, base64, content codings, str
+primitives, three regex searches, the URL library and JSON are parameters. -/
+theorem import_export_preserves_transcribed {J : Type} (p : Prim) (js : Json J) (pl : PrimLaws p) (jl : JsonLaw js)
+    (fs : List Flow) (hg : ∀ f ∈ fs, guardAll (mkLib p) f = true) :
+    ∃ fs', roundtrip (mkLib p) js fs = some fs' ∧ InOrder (fun f f' => same (mkLib p) f f' = true) fs fs' :=
+  import_export_preserves_guarded (mkLib p) js (laws_of_prim pl) jl fs hg
+
+/-- no byte-order mark at the start of the content -/
+def noBom (c : Bytes) : Bool :=
+  !(startsWith c [0x00, 0x00, 0xfe, 0xff] || startsWith c [0xff, 0xfe, 0x00, 0x00] || startsWith c [0xfe, 0xff]
+    || startsWith c [0xff, 0xfe] || startsWith c [0xef, 0xbb, 0xbf])
+
+private theorem declared_noBom (p : Prim) (ct : Text) (c : Bytes) (hb : noBom c = true) :
+    declaredCharset p ct c = declaredCharset p ct [] := by
+  simp only [noBom, Bool.not_eq_true', Bool.or_eq_false_iff] at hb
+  obtain ⟨⟨⟨⟨h1, h2⟩, h3⟩, h4⟩, h5⟩ := hb
+  have e : ∀ pre : Bytes, pre ≠ [] → startsWith [] pre = false := by
+    intro pre hp; cases pre with
+    | nil => exact absurd rfl hp
+    | cons a r => rfl
+  simp [declaredCharset, h1, h2, h3, h4, h5, e]
+
+/-- F-C41f/h characterised, part 1: when the header names a charset and the body has no BOM, the exporter's
+content sniffing cannot disagree with the importer's header-only inference -/
+theorem infer_header_charset (p : Prim) (ct : Text) (c : Bytes) (hb : noBom c = true)
+    (hc : declaredCharset p ct [] ≠ []) : inferT p ct c = inferT p ct [] := by
+  have h1 := declared_noBom p ct c hb
+  unfold inferT
+  simp [orElse, h1, hc]
+
+/-- part 2: without a BOM, sniffing only matters for html, xml and css content types -/
+theorem infer_no_sniff (p : Prim) (ct : Text) (c : Bytes) (hb : noBom c = true)
+    (hh : isInfix (L "html") ct = false) (hx : isInfix (L "xml") ct = false) (hs : isInfix (L "text/css") ct = false) :
+    inferT p ct c = inferT p ct [] := by
+  have h1 := declared_noBom p ct c hb
+  unfold inferT
+  simp [orElse, h1, hh, hx, hs]
+
+/-- the response-text conjunct of the guard follows from: no Content-Encoding, sniffing-independent charset,
+and the charset codec round-tripping this body -/
+theorem gRespText_of_roundtrip (lib : Lib) (f : Flow) (t : Text)
+    (hce : hcontains f.resp.hdrs kCE = false)
+    (hi : lib.infer (ctOf lib f.resp) f.resp.body = lib.infer (ctOf lib f.resp) [])
+    (hd : lib.csDec (lib.infer (ctOf lib f.resp) []) f.resp.body = some t)
+    (he : lib.csEnc (lib.infer (ctOf lib f.resp) []) t = some f.resp.body) : gRespText lib f = true := by
+  have hc : getContent lib f.resp = f.resp.body := getContent_noCE lib hce
+  have ht : getText lib f.resp = t := by
+    unfold getText; simp only [hc, hi, hd]
+  simp [gRespText, ht, importText, he]
+
+/-- likewise for the request text of a POST/PUT/PATCH -/
+theorem gReqText_of_roundtrip (lib : Lib) (f : Flow) (t : Text)
+    (hce : hcontains f.req.hdrs kCE = false)
+    (hi : lib.infer (ctOf lib f.req) f.req.body = lib.infer (ctOf lib f.req) [])
+    (hd : lib.csDec (lib.infer (ctOf lib f.req) []) f.req.body = some t)
+    (he : lib.csEnc (lib.infer (ctOf lib f.req) []) t = some f.req.body)
+    (hbm : isBodyMethod (methodOf lib f.method) = true) : gReqText lib f = true := by
+  have hc : getContent lib f.req = f.req.body := getContent_noCE lib hce
+  have ht : getText lib f.req = t := by
+    unfold getText; simp only [hc, hi, hd]
+  simp [gReqText, postText, hbm, ht, he]
+
+private theorem cutText_mem (s : Bytes) : ∀ x ∈ cutText s, x ∈ s := by
+  intro x hx
+  unfold cutText at hx
+  split at hx
+  · split at hx <;> exact List.mem_of_mem_take hx
+  · exact hx
+
+private theorem cutText_ne_nil (s : Bytes) (h : s ≠ []) : cutText s ≠ [] := by
+  unfold cutText
+  split
+  · split
+    · rename_i cut hf
+      have hm := List.mem_of_find?_eq_some hf
+      have h100 : 100 ≤ cut := by
+        have := List.mem_range'_1.mp hm; omega
+      intro e
+      rcases List.take_eq_nil_iff.mp e with c | c
+      · omega
+      · exact h c
+    · intro e
+      rcases List.take_eq_nil_iff.mp e with c | c
+      · omega
+      · exact h c
+  · exact h
+
+/-- `is_mostly_bin` never sends a body of printable ASCII (and TAB/LF/CR…) to base64: such bodies take the text path -/
+theorem mostlyBin_printable (p : Prim) (s : Bytes) (h : ∀ x ∈ s, isLow x = false ∧ isHigh x = false) :
+    mostlyBinT p s = false := by
+  unfold mostlyBinT
+  by_cases e : s = []
+  · simp [e]
+  · have hl : (cutText s).countP isLow = 0 := List.countP_eq_zero.mpr (fun x hx => by simp [(h x (cutText_mem s x hx)).1])
+    have hh : (cutText s).countP isHigh = 0 := List.countP_eq_zero.mpr (fun x hx => by simp [(h x (cutText_mem s x hx)).2])
+    have hn : (cutText s).length > 0 := List.length_pos_iff.mpr (cutText_ne_nil s e)
+    simp only [e, if_false, hl, hh, Nat.sub_zero]
+    have : 10 * (cutText s).length > 7 * (cutText s).length := by omega
+    simp [this]
+
+/-- a concrete primitive set for non-vacuity (identity codecs) -/
+def toyPrim : Prim where
+  sdec := id
+  senc := some
+  upper := asciiUpper
+  lower := asciiLower
+  strip := fun s => ((s.dropWhile (· == 32)).reverse.dropWhile (· == 32)).reverse
+  b64enc := id
+  b64dec := some
+  utf8Valid := fun b => b.all (fun x => x.toNat < 128)
+  ceDec := fun _ b => some b
+  ceEnc := fun _ b => some b
+  csDec := fun _ b => some b
+  csEnc := fun _ t => some t
+  reMeta := fun _ => none
+  reXml := fun _ => none
+  reCss := fun _ => none
+  urlHostport := fun _ => some (L "example.com")
+  urlPretty := fun u _ => u
+
+theorem toyPrimLaws : PrimLaws toyPrim where
+  senc_sdec := fun _ => rfl
+  sdec_ascii := fun _ _ => rfl
+  method_rt := fun m => ⟨asciiUpper m, rfl, asciiUpper_idem m⟩
+  b64 := fun _ => rfl
+
+/-- the transcriptions compute what the Python functions return on familiar inputs -/
+example : inferT toyPrim (L "text/html; charset=GBK") [] = L "gb18030" := by decide +kernel
+example : inferT toyPrim (L "application/json") (L "{}") = L "utf8" := by decide +kernel
+example : inferT toyPrim (L "image/png") (L "x") = L "latin-1" := by decide +kernel
+example : inferT toyPrim (L "text/plain; charset=utf-8") [0xff, 0xfe, 0x41, 0x00] = L "utf-16le" := by decide +kernel
+example : ctUtf8T toyPrim (L "text/plain; charset=bogus; x=1") = L "text/plain; charset=utf-8; x=1" := by decide +kernel
+example : ctUtf8T toyPrim (L "nonsense") = L "text/plain; charset=utf-8" := by decide +kernel
+example : mostlyBinT toyPrim [0x00, 0x01, 0x02, 0x41] = true := by decide +kernel
+example : mostlyBinT toyPrim (L "hello world") = false := by decide +kernel
+/-- the guarded class is inhabited under the transcribed library too, and an HTTP/2 flow is still outside it -/
+example : guardAll (mkLib toyPrim) okFlow = true := by decide +kernel
+example : guardAll (mkLib toyPrim) h2Flow = false := by decide +kernel
 
 end MitmVerif.Props.C41
